@@ -1,2 +1,20 @@
 // Package props links every property check into the driver.
 package props
+
+import (
+	_ "verif/internal/props/c01"
+	_ "verif/internal/props/c03"
+	_ "verif/internal/props/c04"
+	_ "verif/internal/props/c05"
+	_ "verif/internal/props/c06"
+	_ "verif/internal/props/c07"
+	_ "verif/internal/props/c08"
+	_ "verif/internal/props/c11"
+	_ "verif/internal/props/c12"
+	_ "verif/internal/props/c13"
+	_ "verif/internal/props/c14"
+	_ "verif/internal/props/c15"
+	_ "verif/internal/props/c16"
+	_ "verif/internal/props/c17"
+	_ "verif/internal/props/c20"
+)
